@@ -202,6 +202,26 @@ def d2_keysets(ctx, RA):
             subarray_role(ctx, v.value.value, func) == 'VALUESDIR'
         ctx.decide(ok, 'R-FLOW', 'D2', func, v, 'source::atom', f'{func.qualname}: descriptor atom is values.shape[1:]',
                    detail=f'atom = {norm(v) if v is not None else None}')
+    # who may write the top-level description: besides the creator above and the updater below, every other writer in
+    # raggedarray.py must build the same dictionary from the sub-arrays of the array it writes for (a copied / inherited
+    # dictionary carries the numtype, len and size of another array)
+    m = ctx.repo.module('raggedarray')
+    others = 0
+    for g in list(m.funcs.values()) + list(RA.all_funcs()):
+        if g is f or g.name == '_update_arraydescr':
+            continue
+        for n, cal in ctx.E.callees(g):
+            if cal.qualname == 'DataDir._write_jsondict' and isinstance(n, ast.Call) and \
+                    ctx.E._name_of(get_arg(n, 0, 'filename'), g) == ('lit', 'arraydescription.json'):
+                others += 1
+                ks = resolve(g, get_arg(n, 1, 'd'))
+                good = set(ks) == KEYS and is_len_of(ctx, ks['len'], g, 'INDICESDIR') and is_size_of(ctx, ks['size'], g, 'VALUESDIR')
+                ctx.decide(good, 'R-OWN', 'D2', g, n, 'other-descriptor-writer',
+                           f'{g.qualname} writes a top-level descriptor built from the sub-arrays it describes (keys {sorted(KEYS)})',
+                           detail=f'`{norm(get_arg(n, 1, "d") or ast.Constant(None))[:60]}` is not a dictionary built here from the '
+                                  f'values / indices arrays of the target: numtype, len or size may be those of another array '
+                                  f'(e.g. the source of a copy with a changed dtype)')
+    ctx.info['other_toplevel_descriptor_writers'] = others
     # the writer uses the dict it built; the updater rewrites the in-memory dict
     upd = RA.methods.get('_update_arraydescr')
     ok = upd is not None and any(isinstance(n, ast.Call) and norm(n.func) == 'self._arrayinfo.update' for n in own_nodes(upd.node)) \
